@@ -303,9 +303,11 @@ func (n *networkTopology) replicaMap(tokenRing *tokenRing) tokenRingReplicas {
 		replicaRing = append(replicaRing, hostTokens{th.token, replicas})
 	}
 
+	// count the datacenters of the ring that hold replicas; the keyspace may also
+	// name datacenters the ring does not (yet) contain
 	dcsWithReplicas := 0
-	for _, dc := range n.dcs {
-		if dc > 0 {
+	for dc := range dcRacks {
+		if n.dcs[dc] > 0 {
 			dcsWithReplicas++
 		}
 	}
